@@ -24,7 +24,7 @@ SCHED_QUICK = [sched_model(1, 1), sched_model(4, 1), sched_model(7, 16)]
 SCHED_THOROUGH = [sched_model(1, 5), sched_model(2, 2), sched_model(5, 4), sched_model(10, 32)]
 MODELS_THOROUGH_EXTRA = {"C06": SCHED_THOROUGH, "C11": SCHED_THOROUGH}
 MODELS = {
-    "C03": [M_ST_REL, M_LT],
+    "C03": [M_LT],
     "C05": [M_REL, M_UNREL, M_ST_REL],
     "C06": [M_REL, M_UNREL] + SCHED_QUICK,
     "C07": [M_ST_REL, M_ST],
@@ -71,8 +71,8 @@ def record(bindir, wd, profile, seed, traces, steps):
     out = os.path.join(wd, "rec-%s" % profile.replace(":", "-"))
     if profile.startswith("sweep"):
         _, maxoff, nstr = profile.split(":")
-        rc, o = sh("%s/drive-client sweep --max-off %s --strings %s --out %s" % (bindir, maxoff, nstr, out),
-                   timeout=3000)
+        rc, o = sh("%s/drive-client sweep --max-off %s --strings %s --transports %s --out %s" % (
+            bindir, maxoff, nstr, "both" if int(maxoff) > 20 else "unreliable", out), timeout=3000)
         return out, json.loads(o.strip().splitlines()[-1])
     rc, o = sh("%s/drive-client walk --profile %s --seed %d --traces %d --steps %d --out %s"
                % (bindir, profile, seed, traces, steps, out), timeout=1800)
@@ -220,11 +220,11 @@ def run(prop, tier, seed, replay=None, extra_cov=None):
                 distinct.add(digest(a))
             if len(samples) < 3 and nontrivial(tr["lines"]) and len(a) <= 40:
                 samples.append(a)
+        bytr = {t["tr"]: t for t in traces}
         for (p, line, trn, info) in bad:
             if p != prop:
                 continue
-            tr = next(t for t in traces if t["tr"] == trn and t["first_line"] <= line
-                      < t["first_line"] + len(t["lines"]))
+            tr = bytr[trn]
             k = line - tr["first_line"]
             obs = tr["lines"][k]
             kn = match_known(prop, obs, info)
